@@ -868,7 +868,8 @@ public:
   //! the same way as before.
   //!
   //! \note If the storage for the default section cannot be allocated \ref Error::kOutOfMemory is returned and
-  //! the \ref CodeHolder is left reset (uninitialized, all emitters detached).
+  //! the \ref CodeHolder is left reset (uninitialized, all emitters detached). If an attached emitter fails to
+  //! reinitialize itself, that emitter is detached and its error is returned; the \ref CodeHolder stays initialized.
   ASMJIT_API Error reinit() noexcept;
 
   //! Detaches all code-generators attached and resets the `CodeHolder`.
